@@ -85,6 +85,51 @@ Proof.
   intros q N [a [v1 [v2 [F [E [H1 [H2 PE]]]]]]]. rewrite (NormalE_one q a v1 v2 N F E H1 H2), py_eq_refl in PE. discriminate.
 Qed.
 
+(* ---- the same for every formal attribute, prov:entity included, when the keeping record is strictly single-valued *)
+Definition econflict (q1 q2 : prec) : Prop :=
+  exists a v1 v2, is_formal_attr a = true /\
+                  In v1 (attr_get a (rattrs q1)) /\ In v2 (attr_get a (rattrs q2)) /\ py_eq v1 v2 = false.
+
+Lemma Normal_one : forall o a w1 w2, Normal o -> is_formal_attr a = true ->
+  In w1 (attr_get a (rattrs o)) -> In w2 (attr_get a (rattrs o)) -> w1 = w2.
+Proof.
+  intros o a w1 w2 N F H1 H2. specialize (N a F).
+  destruct (attr_get a (rattrs o)) as [|x [|y l]]; [destruct H1| |contradiction].
+  destruct H1 as [<-|[]], H2 as [<-|[]]. reflexivity.
+Qed.
+
+Theorem covered_agree_strict : forall o q1 q2, Normal o -> covered q1 o -> covered q2 o -> ~ econflict q1 q2.
+Proof.
+  intros o q1 q2 N C1 C2 [a [v1 [v2 [F [H1 [H2 PE]]]]]].
+  destruct (attr_get_attributes _ _ _ H1) as [p1 [Hp1 [E1 S1]]].
+  destruct (attr_get_attributes _ _ _ H2) as [p2 [Hp2 [E2 S2]]].
+  destruct (C1 p1 Hp1) as [v1' [w1 [SV1 [W1 K1]]]]. destruct (C2 p2 Hp2) as [v2' [w2 [SV2 [W2 K2]]]].
+  rewrite <- (attr_get_eqb _ _ _ E1) in W1. rewrite <- (attr_get_eqb _ _ _ E2) in W2.
+  pose proof (Normal_one o a w1 w2 N F W1 W2) as EW. subst w2.
+  pose proof (kept_py_eq _ _ K1) as P1. pose proof (kept_py_eq _ _ K2) as P2. rewrite py_eq_sym in P2.
+  pose proof (py_eq_trans _ _ _ P1 P2) as P.
+  rewrite (py_eq_same_value _ _ _ _ SV1 SV2), S1, S2 in P. congruence.
+Qed.
+
+Lemma self_agree_strict : forall q, Normal q -> ~ econflict q q.
+Proof.
+  intros q N [a [v1 [v2 [F [H1 [H2 PE]]]]]]. rewrite (Normal_one q a v1 v2 N F H1 H2), py_eq_refl in PE. discriminate.
+Qed.
+
+(* a record that does not name prov:collection among its attributes: re-adding it leaves the single-value guard on
+   for prov:entity too *)
+Definition no_coll (r : prec) : Prop := names_collection (all_attr_args r) = false.
+
+Lemma merge_group_normal : forall c rs m acc m' r',
+  Normal acc -> (forall r, In r rs -> no_coll r) -> merge_group c m acc rs = Done m' r' -> Normal r'.
+Proof.
+  intros c rs. induction rs as [|r rest IH]; intros m acc m' r' N NC H; cbn [merge_group] in H.
+  - inversion H; subst. exact N.
+  - pose proof (add_attributes_normal c m acc (all_attr_args r) N (NC r (or_introl eq_refl))) as X.
+    destruct (add_attributes c m acc (all_attr_args r)) as [m1 acc1| |]; try discriminate.
+    exact (IH _ _ _ _ X (fun q Hq => NC q (or_intror Hq)) H).
+Qed.
+
 (* ---- merging keeps single-valuedness *)
 Lemma merge_group_normalE : forall c rs m acc m' r', NormalE acc -> merge_group c m acc rs = Done m' r' -> NormalE r'.
 Proof.
@@ -108,13 +153,47 @@ Proof.
   destruct (rid a) as [q|]; [exists q; reflexivity | discriminate].
 Qed.
 
+(* what the walk leaves behind for a group: the group is one record, or one single-valued record keeps every
+   attribute pair of every member (strictly single-valued when no member names prov:collection) *)
+Definition in_group (r : prec) (all : list prec) (x : prec) : Prop := In x all /\ same_group r x = true.
+Definition witness (r : prec) (all : list prec) : Prop :=
+  (exists r', forall x, in_group r all x -> x = r') \/
+  (exists o, NormalE o /\ ((forall x, in_group r all x -> no_coll x) -> Normal o) /\
+             forall x, in_group r all x -> covered x o).
+
+Lemma in_group_transfer : forall r r' all x, same_group r' r = true -> in_group r' all x -> in_group r all x.
+Proof.
+  intros r r' all x S [Hx G]. split; [exact Hx|]. rewrite same_group_sym in S. exact (same_group_trans _ _ _ S G).
+Qed.
+
+Lemma witness_transfer : forall r r' all, same_group r' r = true -> witness r all -> witness r' all.
+Proof.
+  intros r r' all S [[r1 H]|[o [N [NS C]]]].
+  - left. exists r1. intros x Hx. apply H. exact (in_group_transfer _ _ _ _ S Hx).
+  - right. exists o. split; [exact N|]. split.
+    + intros NC. apply NS. intros x Hx. apply NC. rewrite same_group_sym in S. exact (in_group_transfer _ _ _ _ S Hx).
+    + intros x Hx. apply C. exact (in_group_transfer _ _ _ _ S Hx).
+Qed.
+
 Definition group_agrees (r : prec) (all : list prec) : Prop :=
   forall q1 q2, In q1 all -> In q2 all -> same_group r q1 = true -> same_group r q2 = true -> ~ sconflict q1 q2.
+Definition group_agrees_strict (r : prec) (all : list prec) : Prop :=
+  forall q1 q2, In q1 all -> In q2 all -> same_group r q1 = true -> same_group r q2 = true -> ~ econflict q1 q2.
 
-Lemma group_agrees_transfer : forall r r' all, same_group r' r = true -> group_agrees r all -> group_agrees r' all.
+Lemma witness_agrees : forall r all, (forall x, In x all -> NormalE x) -> witness r all -> group_agrees r all.
 Proof.
-  intros r r' all S A q1 q2 H1 H2 G1 G2. rewrite same_group_sym in S.
-  exact (A q1 q2 H1 H2 (same_group_trans _ _ _ S G1) (same_group_trans _ _ _ S G2)).
+  intros r all NE [[r1 H]|[o [N [_ C]]]] q1 q2 H1 H2 G1 G2.
+  - rewrite (H q1 (conj H1 G1)), (H q2 (conj H2 G2)). apply self_agree. rewrite <- (H q1 (conj H1 G1)). exact (NE q1 H1).
+  - exact (covered_agree o q1 q2 N (C q1 (conj H1 G1)) (C q2 (conj H2 G2))).
+Qed.
+
+Lemma witness_agrees_strict : forall r all,
+  (forall x, in_group r all x -> no_coll x /\ Normal x) -> witness r all -> group_agrees_strict r all.
+Proof.
+  intros r all HS [[r1 H]|[o [_ [NS C]]]] q1 q2 H1 H2 G1 G2.
+  - rewrite (H q1 (conj H1 G1)), (H q2 (conj H2 G2)). apply self_agree_strict.
+    rewrite <- (H q1 (conj H1 G1)). exact (proj2 (HS q1 (conj H1 G1))).
+  - apply (covered_agree_strict o q1 q2); [apply NS; intros x Hx; exact (proj1 (HS x Hx)) | exact (C q1 (conj H1 G1)) | exact (C q2 (conj H2 G2))].
 Qed.
 
 Lemma filter_none : forall (f : prec -> bool) l, (forall x, In x l -> f x = false) -> filter f l = [].
@@ -124,14 +203,14 @@ Proof.
 Qed.
 
 (* ---- the walk: when it returns, every group it was responsible for agrees *)
-Lemma walk_done_agrees : forall fuel c m all pre todo seen m' l,
+Lemma walk_done_witness : forall fuel c m all pre todo seen m' l,
   all = (pre ++ todo)%list -> length todo < fuel -> InvU m ->
-  (forall r, In r all -> good_rec (cft c) r) -> (forall r, In r all -> NormalE r) ->
+  (forall r, In r all -> good_rec (cft c) r) ->
   (forall x y, In x pre -> In y todo -> same_group x y = true -> existsb (same_group y) seen = true) ->
   unify_walk fuel c m all todo seen = Done m' l ->
-  forall r, In r todo -> existsb (same_group r) seen = false -> rid r <> None -> group_agrees r all.
+  forall r, In r todo -> existsb (same_group r) seen = false -> rid r <> None -> witness r all.
 Proof.
-  induction fuel as [|f IH]; intros c m all pre todo seen m' l A L I G NE INV H; [inversion L|].
+  induction fuel as [|f IH]; intros c m all pre todo seen m' l A L I G INV H; [inversion L|].
   destruct todo as [|r0 rest]; [intros r []|]. cbn [unify_walk] in H.
   assert (L' : length rest < f) by (cbn in L; lia).
   assert (A' : all = ((pre ++ [r0]) ++ rest)%list) by (rewrite <- app_assoc; exact A).
@@ -152,7 +231,7 @@ Proof.
       { apply INVSTEP; [auto|]. intros y Hy S. apply existsb_exists in ES. destruct ES as [s [Hs Gs]].
         apply existsb_exists. exists s. split; [exact Hs|]. rewrite same_group_sym in S. exact (same_group_trans _ _ _ S Gs). }
       intros r [<-|Hr] NS NI; [congruence|].
-      exact (IH _ _ _ _ _ _ _ _ A' L' I G NE INV' H r Hr NS NI).
+      exact (IH _ _ _ _ _ _ _ _ A' L' I G INV' H r Hr NS NI).
     + (* r0 opens its group; nothing of the group stands before it *)
       assert (PRE : forall x, In x pre -> same_group r0 x = false).
       { intros x Hx. destruct (same_group r0 x) eqn:S; [|reflexivity]. rewrite same_group_sym in S.
@@ -167,16 +246,14 @@ Proof.
         assert (ALONE : forall y, In y rest -> same_group r0 y = false).
         { intros y Hy. destruct (same_group r0 y) eqn:S; [|reflexivity].
           assert (X : In y (filter (same_group r0) rest)) by (apply filter_In; split; assumption). rewrite EG in X. destruct X. }
-        assert (A0 : group_agrees r0 all).
-        { intros q1 q2 H1 H2 G1 G2.
-          assert (ONLY : forall x, In x all -> same_group r0 x = true -> x = r0).
-          { intros x Hx Sx. assert (X : In x (filter (same_group r0) all)) by (apply filter_In; split; assumption).
-            rewrite FG in X. destruct X as [<-|[]]. reflexivity. }
-          rewrite (ONLY q1 H1 G1), (ONLY q2 H2 G2). apply self_agree. exact (NE r0 Rall). }
+        assert (A0 : witness r0 all).
+        { left. exists r0. intros x [Hx Sx].
+          assert (X : In x (filter (same_group r0) all)) by (apply filter_In; split; assumption).
+          rewrite FG in X. destruct X as [<-|[]]. reflexivity. }
         assert (INV' : forall x y, In x (pre ++ [r0])%list -> In y rest -> same_group x y = true -> existsb (same_group y) seen = true).
         { apply INVSTEP; [auto|]. intros y Hy S. rewrite (ALONE y Hy) in S. discriminate. }
         intros r [<-|Hr] NS NI; [exact A0|].
-        exact (IH _ _ _ _ _ _ _ _ A' L' I G NE INV' EW r Hr NS NI).
+        exact (IH _ _ _ _ _ _ _ _ A' L' I G INV' EW r Hr NS NI).
       * (* a group of two or more: copied, merged *)
         cbn [tl] in H.
         assert (GRP : forall x, In x (g1 :: grest) -> In x all /\ same_group r0 x = true).
@@ -197,8 +274,15 @@ Proof.
           rewrite FG in X. destruct X as [<-|X].
           - intros p Hp. destruct (C1 p Hp) as [v2 [w [SV [Hw K]]]]. exists v2, w. split; [exact SV|]. split; [apply P2; exact Hw | exact K].
           - intros p Hp. exact (C2 x p X Hp). }
-        assert (A0 : group_agrees r0 all).
-        { intros q1 q2 H1 H2 G1 G2. exact (covered_agree merged q1 q2 Nm (COV q1 H1 G1) (COV q2 H2 G2)). }
+        assert (A0 : witness r0 all).
+        { right. exists merged. split; [exact Nm|]. split.
+          - intros NC.
+            pose proof (add_attributes_normal c m (mkRec (rkind r0) (Some q0) []) (all_attr_args r0)
+                          (NormalD_nil : Normal (mkRec _ _ [])) (NC r0 (conj Rall RR))) as Scp.
+            rewrite EA in Scp.
+            refine (merge_group_normal _ _ _ _ _ _ Scp _ EM).
+            intros x Hx. apply NC. destruct (GRP x Hx) as [Hall Sx]. split; assumption.
+          - intros x [Hx Sx]. exact (COV x Hx Sx). }
         assert (INV' : forall x y, In x (pre ++ [r0])%list -> In y rest -> same_group x y = true ->
                                    existsb (same_group y) (r0 :: seen) = true).
         { apply INVSTEP.
@@ -206,15 +290,15 @@ Proof.
           - intros y Hy S. cbn [existsb]. rewrite same_group_sym, S. reflexivity. }
         intros r [<-|Hr] NS NI; [exact A0|].
         destruct (same_group r r0) eqn:SR.
-        -- exact (group_agrees_transfer r0 r all SR A0).
+        -- exact (witness_transfer r0 r all SR A0).
         -- assert (NS' : existsb (same_group r) (r0 :: seen) = false) by (cbn [existsb]; rewrite SR, NS; reflexivity).
-           exact (IH _ _ _ _ _ _ _ _ A' L' I2 G NE INV' EW r Hr NS' NI).
+           exact (IH _ _ _ _ _ _ _ _ A' L' I2 G INV' EW r Hr NS' NI).
   - (* no identifier: kept as it is, groups with nothing *)
     destruct (unify_walk f c m all rest seen) as [m1 l1|m1 e1|] eqn:EW; cbv iota beta in H; try discriminate.
     assert (INV' : forall x y, In x (pre ++ [r0])%list -> In y rest -> same_group x y = true -> existsb (same_group y) seen = true).
     { apply INVSTEP; [auto|]. intros y Hy S. destruct (same_group_has_id _ _ S) as [q Eq]. congruence. }
     intros r [<-|Hr] NS NI; [congruence|].
-    exact (IH _ _ _ _ _ _ _ _ A' L' I G NE INV' EW r Hr NS NI).
+    exact (IH _ _ _ _ _ _ _ _ A' L' I G INV' EW r Hr NS NI).
 Qed.
 
 (* a strict conflict inside one (kind, identifier) group *)
@@ -224,18 +308,45 @@ Definition group_sconflict (all : list prec) : Prop :=
 
 (* unified() of the records of a container does not return when two records of one group disagree on a
    single-valued formal attribute *)
+Lemma unified_returns_witness : forall ft b u,
+  (forall r, In r (brecs b) -> good_rec ft r) -> unified_records ft b = OK u ->
+  forall r, In r (brecs b) -> rid r <> None -> witness r (brecs b).
+Proof.
+  intros ft b u G H r Hr NI. unfold unified_records in H.
+  destruct (unify_walk (S (length (brecs b))) (mkCtx (Some (bns b)) ft) nsm_init (brecs b) (brecs b) []) as [m' l|m' e'|] eqn:E;
+    try discriminate.
+  refine (walk_done_witness _ (mkCtx (Some (bns b)) ft) _ (brecs b) [] _ _ _ _ eq_refl (Nat.lt_succ_diag_r _) InvU_init G _ E
+            r Hr eq_refl NI).
+  intros x y [].
+Qed.
+
 Theorem unified_returns_no_conflict : forall ft b u,
   (forall r, In r (brecs b) -> good_rec ft r) -> (forall r, In r (brecs b) -> NormalE r) ->
   unified_records ft b = OK u -> ~ group_sconflict (brecs b).
 Proof.
-  intros ft b u G NE H [r [q1 [q2 [Hr [H1 [H2 [G1 [G2 C]]]]]]]]. unfold unified_records in H.
-  destruct (unify_walk (S (length (brecs b))) (mkCtx (Some (bns b)) ft) nsm_init (brecs b) (brecs b) []) as [m' l|m' e'|] eqn:E;
-    try discriminate.
+  intros ft b u G NE H [r [q1 [q2 [Hr [H1 [H2 [G1 [G2 C]]]]]]]].
   destruct (same_group_has_id _ _ G1) as [q Eq].
   assert (NI : rid r <> None) by congruence.
-  refine (walk_done_agrees _ (mkCtx (Some (bns b)) ft) _ (brecs b) [] _ _ _ _ eq_refl (Nat.lt_succ_diag_r _) InvU_init G NE _ E
-            r Hr eq_refl NI q1 q2 H1 H2 G1 G2 C).
-  intros x y [].
+  exact (witness_agrees r (brecs b) NE (unified_returns_witness ft b u G H r Hr NI) q1 q2 H1 H2 G1 G2 C).
+Qed.
+
+(* prov:entity too: in a group none of whose records names prov:collection and all of whose records are strictly
+   single-valued (generations, usages, ... — everything but memberships), no two records disagree on any formal
+   attribute when unified() returns *)
+Definition group_econflict (all : list prec) : Prop :=
+  exists r q1 q2, In r all /\ In q1 all /\ In q2 all /\
+                  same_group r q1 = true /\ same_group r q2 = true /\
+                  (forall x, In x all -> same_group r x = true -> no_coll x /\ Normal x) /\ econflict q1 q2.
+
+Theorem unified_returns_no_econflict : forall ft b u,
+  (forall r, In r (brecs b) -> good_rec ft r) ->
+  unified_records ft b = OK u -> ~ group_econflict (brecs b).
+Proof.
+  intros ft b u G H [r [q1 [q2 [Hr [H1 [H2 [G1 [G2 [HS C]]]]]]]]].
+  destruct (same_group_has_id _ _ G1) as [q Eq].
+  assert (NI : rid r <> None) by congruence.
+  refine (witness_agrees_strict r (brecs b) _ (unified_returns_witness ft b u G H r Hr NI) q1 q2 H1 H2 G1 G2 C).
+  intros x [Hx Sx]. exact (HS x Hx Sx).
 Qed.
 
 (* in every reachable world: a conflict means unified() raises ProvException (or the container is outside
@@ -306,4 +417,27 @@ Proof.
   intros ft ops d dd nd w G H.
   destruct (reachable_WGood ft ops) as [_ WG]. fold w in WG.
   exact (doc_unified_returns_no_conflict _ _ _ (WGood_get_doc w d dd WG G) (WNormal_get_doc w d dd (reachable_WNormal ft ops) G) H).
+Qed.
+
+(* the strict form in every reachable world *)
+Theorem reachable_econflict_raises : forall ft ops c b,
+  let w := wrun ft ops in
+  get_cont w c = Some b -> group_econflict (brecs b) ->
+  unified_records (wft w) b = Raise EProv \/ unified_records (wft w) b = OutOfDomain.
+Proof.
+  intros ft ops c b w G C.
+  destruct (reachable_WGood ft ops) as [_ WG]. fold w in WG.
+  pose proof (WGood_get_cont w c b WG G) as B. unfold BGood in B. rewrite Forall_forall in B.
+  assert (GR : forall r, In r (brecs b) -> good_rec (wft w) r) by (intros r Hr; apply GoodR_good_rec; exact (B r Hr)).
+  destruct (unified_records (wft w) b) as [u|e|] eqn:E.
+  - exfalso. exact (unified_returns_no_econflict _ _ _ GR E C).
+  - left. destruct (unified_raises_on_conflict_only (wft w) b e GR E) as [-> _]. reflexivity.
+  - right. reflexivity.
+Qed.
+
+(* a record with one value under one formal attribute is strictly single-valued *)
+Lemma Normal_single_pair : forall k i a v, typed a v -> Normal (mkRec k i [(a, [v])]).
+Proof.
+  intros k i a v T x F. cbn [rattrs attr_get]. destruct (qn_eqb x a) eqn:E; [|exact I].
+  eapply typed_transfer; eauto.
 Qed.
